@@ -261,7 +261,8 @@ def d1_call(ctx):
             else:
                 verdicts.append(('unknown', r))
         elif Pat().any(['np.sort(np.concatenate(E_v))', 'np.concatenate(E_v)', 'np.hstack(E_v)', 'E_l[0]', 'E_l[-1]', 'next(iter(E_l))'], cur) or \
-                (isinstance(cur, ast.Subscript) and not isinstance(cur.slice, ast.Slice)):
+                (isinstance(cur, ast.Subscript) and not isinstance(cur.slice, ast.Slice) and
+                 (Pat().any([dp, 'list(%s.values())' % dp, 'tuple(%s.values())' % dp], cur.value) or isinstance(cur.slice, ast.Constant))):
             verdicts.append(('bad', r))           # no de-duplication / no sorting: one stored value or a plain concatenation
         else:
             verdicts.append(('unknown', r))
